@@ -58,6 +58,15 @@ impl OoqMessage {
     }
 }
 
+impl From<OoqMessage> for UserRxMessage {
+    fn from(msg: OoqMessage) -> Self {
+        match msg {
+            OoqMessage::Payload(payload) => UserRxMessage::Payload(payload),
+            OoqMessage::Eof => UserRxMessage::Eof,
+        }
+    }
+}
+
 mod msgq {
     use std::collections::VecDeque;
 
@@ -100,13 +109,11 @@ mod msgq {
 
         pub fn try_push_back(&mut self, msg: OoqMessage) -> Result<(), OoqMessage> {
             let len = msg.len_bytes();
-            if self.capacity - self.len_bytes < len {
+            // NOTE: len_bytes may exceed capacity, see UserRx::flush_before_death().
+            if self.window() < len {
                 return Err(msg);
             }
-            self.queue.push_back(match msg {
-                OoqMessage::Payload(payload) => UserRxMessage::Payload(payload),
-                OoqMessage::Eof => UserRxMessage::Eof,
-            });
+            self.queue.push_back(msg.into());
             self.len_bytes += len;
             Ok(())
         }
@@ -418,6 +425,35 @@ impl UserRx {
 
         self.last_remaining_rx_window = remaining_rx_window;
         Ok(flushed_bytes)
+    }
+
+    /// To be called right before the dispatcher dies, as nobody will be able to flush() afterwards.
+    ///
+    /// Hands over everything that is already in order (and thus was ACKed to the remote), including
+    /// the EOF marker, to the read half, ignoring the user queue capacity. Otherwise a slow reader would
+    /// lose it. This doesn't buffer anything new: the messages just move from one queue to the other.
+    pub fn flush_before_death(&mut self) {
+        let mut g = self.shared.locked.lock();
+        if g.reader_dropped {
+            return;
+        }
+        let mut flushed_packets = 0;
+        while self
+            .ooq
+            .send_front_if_fits(usize::MAX, |msg| {
+                g.queue.push_back(msg.into());
+                Ok(())
+            })
+            .is_some()
+        {
+            flushed_packets += 1;
+        }
+        if flushed_packets > 0 {
+            trace!(
+                packets = flushed_packets,
+                "flushed from out-of-order to user RX before death"
+            );
+        }
     }
 
     /// Enqueue an error into read half to be consumed by the user.
